@@ -18,6 +18,9 @@ import (
 	"net"
 )
 
+// maxBodyLength is the largest body a datagram can carry after the 8 bytes header.
+const maxBodyLength = 65507 - 8
+
 type data struct {
 	Index int
 	Body  []byte
